@@ -121,7 +121,7 @@ def run(ctx):
                       'core.generate.utility.combine_cnf_with_requests', 'logic.to_cnf_tseitin',
                       'sampling_strategy.base.Gen.decode', 'block.add_implied_levels',
                       'cross_block._create / Repeat / Merge / Nest / MultiCrossBlock']
-    ctx.bounds = {'designs': 'fixed corpus (vf/corpus.py) + 40 (thorough 400) seeded random descriptors',
+    ctx.bounds = {'designs': 'fixed corpus (vf/corpus.py) + 40 (thorough 1500) seeded random descriptors',
                   'size': 'T <= 8 (thorough 12), <= 4 factors, <= 3 levels',
                   'models': 'all satisfying assignments of the compiled formula (solver verdict)'}
     ctx.outside += ['designs outside the generator space', 'designs the reference refuses to judge (listed under outside)',
@@ -137,7 +137,7 @@ def run(ctx):
     r, _ = z3_check(comp.z.cnf(weak) + [z3.Not(z3.And([e for _, e in R]))], ctx)
     if r != 'sat':
         raise HarnessError('vacuity: soundness query cannot see a weakened formula')
-    items = design_items(ctx, ('sound',))
+    items = design_items(ctx, ('sound',), n=1500 if ctx.tier == 'thorough' else None)
     res = pmap(ctx, check_design, items)
     ctx.extra['design_outcomes'] = {k: res.count(k) for k in set(res)}
     oks = [d for (d, _), r in zip(items, res) if r == 'ok']
